@@ -181,12 +181,20 @@ def find_typedef(path, text, masked, name):
         raise SrcError('type %s not found in %s' % (name, path))
     kw = m.start() + len(m.group(0)) - len(m.group(0).lstrip())
     start, ls = _item_start(text, masked, m.end() - 1)
-    o = masked.find('{', m.end())
-    semi = masked.find(';', m.end())
-    if 0 <= semi and (o < 0 or semi < o):
-        return Item(path, text, 'type', name, start, ls, semi, semi + 1)   # tuple struct
-    c = match_close(masked, o)
-    return Item(path, text, 'type', name, start, ls, o, c + 1)
+    k, depth = m.end(), 0
+    while k < len(masked):
+        ch = masked[k]
+        if ch in '([':
+            depth += 1
+        elif ch in ')]':
+            depth -= 1
+        elif ch == ';' and depth == 0:
+            return Item(path, text, 'type', name, start, ls, k, k + 1)   # tuple / unit struct
+        elif ch == '{' and depth == 0:
+            c = match_close(masked, k)
+            return Item(path, text, 'type', name, start, ls, k, c + 1)
+        k += 1
+    raise SrcError('type %s: no body' % name)
 
 
 def find_const(path, text, masked, name):
